@@ -156,10 +156,11 @@ def plan(chk):
             for r in range(reps):
                 add(shape="boundary", dim=dim, val=val, **({"coin": COIN_NAMES[r]} if reps == 8 else {}))
     if not chk.thorough:
-        # one large-width probe per dimension class even in quick (3-byte -> 5-byte CompactSize)
-        add(shape="boundary", dim="nout", val=0x10000)
+        # both sides of the 3-byte -> 5-byte CompactSize boundary for every dimension in quick as well
+        for dim in DIMS:
+            add(shape="boundary", dim=dim, val=0xFFFF)
+            add(shape="boundary", dim=dim, val=0x10000)
         add(shape="boundary", dim="spklen", val=0x10001)
-        add(shape="boundary", dim="witlen", val=0x10000)
     for coin in COIN_NAMES:
         for verify in (False, True):
             add(shape="segwit", coin=coin, verify=verify)
